@@ -1,13 +1,16 @@
 """C12 - shortest-path trees are exact and mutually consistent."""
 from lib import engine
 from lib.core import tier
-from units import k12_scalar, k12a_sptree_init, k12b_first, k12c_lexdijkstra
+from units import k12_scalar, k12a_sptree_init, k12b_first, k12c_lexdijkstra, k12e_lexorder
 
 LEVEL = "other"
 EXPLANATION = (
     "PROVED by CBMC (loop-free, full domain): the scalar prefix (distance, then edge count) of the label order "
     "LexDistanceCompare decides strictly and consistently in both argument orders, and closed_plus is + below "
-    "infinity and saturates without overflow - the arithmetic part of 'total order on labels'.  PROVED(n<=4, thorough 6; loop contracts "
+    "infinity and saturates without overflow; the COMPLETE comparator including its set-difference tail (vertex sets as 64-bit masks, "
+    "std::set_difference / begin / empty by their contracts) is decided by distance, then edge count, then 'a proper subset is smaller, "
+    "otherwise the smaller smallest non-common element wins', and - as lemmas over that contract, for every triple of labels - it is "
+    "irreflexive, asymmetric and, on vertex sets of equal size, total and transitive (K12e): the strict total order on labels.  PROVED(n<=4, thorough 6; loop contracts "
     "with quantified invariants; SPNode constructors bound mechanically from their initialiser lists): SPTree::initialize gives a node "
     "exactly to the source and to the vertices with a predecessor, each storing its vertex, its distance (0 for the source) and its "
     "predecessor edge, sets the root, lists every non-source node exactly once under the other endpoint of its predecessor edge "
@@ -24,7 +27,7 @@ EXPLANATION = (
 
 
 def run(rep):
-    engine.run_units(rep, k12_scalar.units(tier()) + k12a_sptree_init.units(tier()) + k12b_first.units(tier()) + k12c_lexdijkstra.units(tier()))
+    engine.run_units(rep, k12_scalar.units(tier()) + k12a_sptree_init.units(tier()) + k12b_first.units(tier()) + k12c_lexdijkstra.units(tier()) + k12e_lexorder.units(tier()))
     engine.run_native(rep, "e3_components", driver="e3_components[C12]", args=["--only", "C12"],
                       functions={"SPTree ctor/node/first + lex_dijkstra": "bounded(all graphs n<=6 + tie-heavy families + random)",
                                  "LexDistanceCompare set-difference tail": "bounded(all equal-size subsets of {0..5})"},
